@@ -568,24 +568,9 @@ func (e *Enc) encIndexAddr(fr *Frame, st *State, in *ssa.IndexAddr) *Val {
 	return &Val{T: in.Type(), Loc: &Loc{Kind: 'P', Key: "?", Ref: e.fresh("unk", "Int"), T: in.Type().(*types.Pointer).Elem()}}
 }
 
-// elemIdx: the cell index off+i of element i of a slice with offset off. When both parts are symbolic the sum is written
-// with the function idx (idx(a,b) = a+b by an axiom triggered on idx itself), so that quantified facts about slice
-// elements get patterns without arithmetic operators — e-matching on (+ off i) is unreliable.
+// elemIdx: the cell index off+i of element i of a slice with offset off.
 func (e *Enc) elemIdx(off, i string) string {
-	if off == "0" {
-		return i
-	}
-	if i == "0" {
-		return off
-	}
-	if _, ok := isConstTerm(i); ok {
-		return "(+ " + off + " " + i + ")"
-	}
-	if _, ok := e.declared["idx"]; !ok {
-		e.declFun("idx", []string{"Int", "Int"}, "Int")
-		e.assert("(forall ((a Int) (b Int)) (! (= (idx a b) (+ a b)) :pattern ((idx a b))))")
-	}
-	return "(idx " + off + " " + i + ")"
+	return addT(off, i)
 }
 
 func addT(a, b string) string {
